@@ -982,6 +982,12 @@ fire("c04-markov-product-rename-without-clash-test", "C04", SUMPROD,
 fire("c04-gaussian-var-stage-collapse-not-raised", "C04", GAUSS,
      "        if len(inputs) != len(self.inputs):\n            raise ValueError(\"Variable substitution name conflict\")\n", "        pass\n", None, "_eager_subs_var")
 
+
+fire("c04-cat-slice-branch-keeps-old-name", "C04", TERMS,
+     "            return Cat(value.name, tuple(new_parts), self.part_name)\n", "            return Cat(self.name, tuple(new_parts), self.part_name)\n", "R04.10", "Cat.eager_subs")
+fire("c04-stack-variable-branch-keeps-old-name", "C04", TERMS,
+     "                parts = self.parts\n                return Stack(index.name, parts)", "                parts = self.parts\n                return Stack(self.name, parts)", "R04.10", "Stack.eager_subs")
+
 # ===== derived variants: must stay at the END of this file (they enumerate every rename() variant above) =====
 # `if c: A else: B` -> `if not c: B else: A` in the anchor functions (behaviour-preserving)
 def invert(prop, file, qual):
